@@ -100,8 +100,15 @@ func newTreeFile(p *reg.Pkg, typ, fn, requires string) *treeFile {
 }
 
 func (tf *treeFile) write(out, stream string, shard int) ([]string, error) {
-	tf.cf.header = "From Ygot Require Import Tree.Tree Tree.Codec Tree.Render Tree.TreeOps Tree.Unmarshal " + tf.extra + ".\nOpen Scope N_scope.\n" +
-		"Definition sch : schema := " + tf.sch + ".\nDefinition env : enum_env := " + tf.env + ".\n" +
+	// the schema and enum environment are compiled once per package (sch_*.v) and imported by
+	// every case shard; only the float oracle is per shard set
+	mod := "sch_" + stream + "_" + tf.pkg.Name
+	schSrc := "From Ygot Require Import Tree.Tree.\nOpen Scope N_scope.\n" +
+		"Definition sch : schema := " + tf.sch + ".\nDefinition env : enum_env := " + tf.env + ".\n"
+	if err := os.WriteFile(out+"/"+mod+".v", []byte(schSrc), 0o644); err != nil {
+		return nil, err
+	}
+	tf.cf.header = "From Ygot Require Import Tree.Tree Tree.Codec Tree.Render Tree.TreeOps Tree.Unmarshal " + tf.extra + ".\nRequire Import " + mod + ".\nOpen Scope N_scope.\n" +
 		"Definition fo : float_oracle := " + floatOracleTerm() + "."
 	tf.cf.fn = tf.fn + " sch env fo"
 	return tf.cf.write(out, stream+"_"+tf.pkg.Name, shard)
